@@ -137,6 +137,11 @@ class ObjMixin:
             return r
         if name in obj.attrs:
             return obj.attrs[name]
+        hk = self.hooks.get('class_attr_get')
+        if hk is not None and owner is not None:
+            r = hk(self, owner, name)
+            if r is not MISSING:
+                return r
         if v is not None:
             return self.bind_class_attr(obj, v, obj.cls)
         hook = self.hooks.get('obj_getattr')
@@ -180,6 +185,11 @@ class ObjMixin:
             return cls.qualname
         if name == '__members__' and cls.enum_kind:
             return {m.name: m for m in cls.members}
+        hk = self.hooks.get('class_attr_get')
+        if hk is not None:
+            r = hk(self, cls, name)
+            if r is not MISSING:
+                return r
         v, owner = cls.lookup(name)
         if v is not None:
             if isinstance(v, ClassMethodVal):
@@ -213,6 +223,9 @@ class ObjMixin:
                 return self.call(BoundMethod(obj, sa), [name, val], {})
             return self.raw_setattr(obj, name, val)
         if isinstance(obj, ClassInfo):
+            hk = self.hooks.get('class_attr_set')
+            if hk is not None and hk(self, obj, name, val):
+                return
             obj.attrs[name] = val
             return
         if isinstance(obj, Model):
